@@ -15,7 +15,9 @@ SERVER_CFG = dict(CLIENT_CFG, MODE="SERVER", LOCAL_NODE_HOSTNAME="server.network
 STATE_NAMES = {"Closed": "Closed", "Wait-Conn-Ack": "WaitConnAck", "Wait-I-CEA": "WaitICEA", "I-Open": "Open", "R-Open": "Open",
                "Open": "Open", "Closing": "Closing", "Wait-Returns": "WaitReturns", "Wait-Conn-Ack/Elect": "WaitConnAckElect"}
 
-IDMAP = {0: (0, 0), 1: (0x00000001, 0xFFFFFFFF), 2: (0x7FFFFFFF, 0x80000000), 3: (0xFFFFFFFE, 0x00000100)}
+# 1 and 2 share the Hop-by-Hop, 1 and 3 share the End-to-End, 4 has a zero Hop-by-Hop: an answer that copies only one of
+# the two identifiers, or copies them only when one of them changed, or treats zero as "unset", is told apart
+IDMAP = {0: (0, 0), 1: (0x00000001, 0xFFFFFFFF), 2: (0x00000001, 0x80000000), 3: (0x7FFFFFFF, 0xFFFFFFFF), 4: (0x00000000, 0x00000100)}
 
 _installed = False
 
